@@ -20,17 +20,17 @@
     reproduces tables dumped from the real code ([C14_view_is_real_dump]).  Proved, for every
     document of every world reachable by any history that still has a document element:
     - the table satisfies [DocInv] (tree + keys non-zero and strictly increasing along the table),
-      [SpecShape] (incl. [sh_order]: the table is in the document order of its own tree), and --
-      without a document type -- [ParentsOk] and [NamesOk]: ALL hypotheses of the C07 / C05
-      theorems ([C14_bridge_reachable]); the condition on the document element is necessary
+      [SpecShape] (incl. [sh_order]: the table is in the document order of its own tree) and
+      [NamesOk] -- ALL hypotheses of the C07 / C05 theorems -- and, without a document type,
+      [ParentsOk] ([C14_bridge_reachable]); the condition on the document element is necessary
       ([C14_bridge_needs_document_element]: [DocInv] asks the root for an element child);
     - every node-set any expression without the namespace axis returns on the edited document is
       duplicate-free and in document order by position in the table
       ([C14_edited_nodeset_canonical]), and position in the table is position in the specified
       walk of the store ([C14_table_order_is_walk_order]);
-    - without a document type, every SUPPORTED expression (C05 in full: predicates, all axes but
-      namespace, operators, comparisons, the function library; [supported_b]) evaluated on the
-      edited document has the value XPath 1.0 prescribes for the TREE
+    - every SUPPORTED expression (C05 in full: predicates, all axes but namespace, operators,
+      comparisons, the function library; [supported_b]) evaluated on the edited document --
+      document types included -- has the value XPath 1.0 prescribes for the TREE
       ([C14_edited_eval_refines_spec]); that value does not read ids, order keys and parent
       pointers ([C14_spec_query_tree_only]), so two stores whose tables are equal up to those --
       an edited document and the fresh parse of its serialisation -- give the same boolean,
@@ -39,9 +39,8 @@
       statement for predicate-free location paths, with the context returned unchanged).
     NOT proved here: that a fresh parse of the serialisation yields the same tree (C15 / C04:
     [same_tree] of the two tables is a hypothesis of the last theorem; it fails exactly where C15 has
-    its findings, e.g. a text node without characters, [C14_example_empty_text_DD3]), documents
-    with a document type ([ParentsOk] is false there: the doctype row reports the document as
-    parent), and the expressions C05 does not support (namespace axis, id(), ...).  Those stay
+    its findings, e.g. a text node without characters, [C14_example_empty_text_DD3]), and the
+    expressions C05 does not support (namespace axis, id(), ...).  Those stay
     tested by the [Q] operations of checks/C14.py (queries on the edited document against a
     re-parse, as pre-order ranks).  Trusted: that [xdoc_of_store] is the table the harness would dump for the real
     document -- its ingredients ([parent_node], [child_view], [key], [owner_element], attribute
@@ -109,7 +108,7 @@ Proof. exact bridge_shape. Qed.
     statement, on the view) *)
 Theorem C14_bridge_names :
   forall (F : sfacts) (merged : bool) (s : store),
-    TreeInv s -> doc_element s <> None -> doc_decl s = None -> NamesOk (xdoc_of_store F merged s).
+    TreeInv s -> OrderInv s -> doc_element s <> None -> NamesOk (xdoc_of_store F merged s).
 Proof. exact bridge_names. Qed.
 
 Theorem C14_bridge_parents :
@@ -129,7 +128,8 @@ Theorem C14_bridge_reachable :
   forall (F : sfacts) (merged : bool) (init : world) (ops : list op) (k : N) (s : store),
     WGood init -> doc_at (run init ops) k = Some s -> doc_element s <> None ->
     DocInv (xdoc_of_store F merged s) /\ SpecShape (xdoc_of_store F merged s) /\
-    (doc_decl s = None -> ParentsOk (xdoc_of_store F merged s) /\ NamesOk (xdoc_of_store F merged s)).
+    NamesOk (xdoc_of_store F merged s) /\
+    (doc_decl s = None -> ParentsOk (xdoc_of_store F merged s)).
 Proof. exact bridge_reachable. Qed.
 
 (** C07 on the edited document: whatever axes, unions, filters and predicates an expression
@@ -183,8 +183,7 @@ Proof. exact edited_path_query_refines. Qed.
     namespace binding *)
 Theorem C14_edited_eval_refines_spec :
   forall (F : sfacts) (merged : bool) (init : world) (ops : list op) (k : N) (s : store),
-    WGood init -> doc_at (run init ops) k = Some s ->
-    doc_element s <> None -> doc_decl s = None ->
+    WGood init -> doc_at (run init ops) k = Some s -> doc_element s <> None ->
     forall (c : ctx) (e : expr), ns_lookup (c_ns c) None = None -> supported (c_ns c) e ->
       value_abs (fst (query (xdoc_of_store F merged s) e c)) =
       spec_query (xdoc_of_store F merged s) (c_ns c) (get_position c) (get_size c) e.
@@ -204,14 +203,13 @@ Proof. exact spec_query_tree_only. Qed.
     Proved part: for every expression C05 supports, with the fact that belongs to other
     properties as hypothesis -- the fresh parse yields the same tree ([same_tree] of the tables:
     C15 / C04) and satisfies the invariants ([TreeInv], [OrderInv]: what [WGood] of an initial
-    world gives) -- and for documents with a document element and without a document type: the
-    edited document and the fresh parse give the same rows in the same order, which are the rows
-    XPath 1.0 prescribes. *)
+    world gives) -- and for documents with a document element: the edited document and the
+    fresh parse give the same value (the same rows in the same order for a node-set), which is
+    the value XPath 1.0 prescribes. *)
 Theorem C14_query_depends_on_tree_only :
   forall (F1 F2 : sfacts) (merged : bool) (init : world) (ops : list op) (k : N) (s1 s2 : store),
     WGood init -> doc_at (run init ops) k = Some s1 ->
-    TreeInv s2 -> OrderInv s2 ->
-    doc_element s1 <> None -> doc_decl s1 = None -> doc_element s2 <> None -> doc_decl s2 = None ->
+    TreeInv s2 -> OrderInv s2 -> doc_element s1 <> None -> doc_element s2 <> None ->
     same_tree (xdoc_of_store F1 merged s1) (xdoc_of_store F2 merged s2) ->
     forall (c1 c2 : ctx) (e : expr),
       c_ns c1 = c_ns c2 -> get_position c1 = get_position c2 -> get_size c1 = get_size c2 ->
@@ -225,16 +223,16 @@ Proof. exact query_depends_on_tree_only_all. Qed.
 (** the same for two arbitrary tables satisfying the hypotheses of C05 *)
 Theorem C14_same_tree_same_value :
   forall (d1 d2 : xdoc),
-    DocInv d1 -> SpecShape d1 -> ParentsOk d1 -> DocInv d2 -> SpecShape d2 -> ParentsOk d2 ->
-    NamesOk d1 -> same_tree d1 d2 ->
+    DocInv d1 -> SpecShape d1 -> DocInv d2 -> SpecShape d2 -> NamesOk d1 -> same_tree d1 d2 ->
     forall (c1 c2 : ctx) (e : expr),
       c_ns c1 = c_ns c2 -> get_position c1 = get_position c2 -> get_size c1 = get_size c2 ->
       ns_lookup (c_ns c1) None = None -> supported (c_ns c1) e ->
       value_abs (fst (query d1 e c1)) = value_abs (fst (query d2 e c2)).
 Proof. exact same_tree_same_value. Qed.
 
-(** the earlier statement for queries that are one predicate-free location path: the two values
-    are the same LIST of rows and the contexts are returned unchanged *)
+(** the earlier statement for queries that are one predicate-free location path (documents
+    without a document type): the two values are the same LIST of rows and the contexts are
+    returned unchanged *)
 Theorem C14_query_depends_on_tree_only_partial :
   forall (F1 F2 : sfacts) (merged : bool) (init : world) (ops : list op) (k : N) (s1 s2 : store),
     WGood init -> doc_at (run init ops) k = Some s1 ->
@@ -300,6 +298,13 @@ Example C14_example_hypotheses :
   TreeInv rp_store /\ OrderInv rp_store /\ doc_element rp_store <> None /\ doc_decl rp_store = None /\
   same_tree br_view rp_view.
 Proof. exact br_hypotheses. Qed.
+
+(** a document with a document type (tables dumped from the real code, both views) *)
+Example C14_example_with_doctype :
+  TreeInv rich_store /\ OrderInv rich_store /\ doc_element rich_store <> None /\ doc_decl rich_store = Some 2 /\
+  DocInv rich_raw_doc /\ SpecShape rich_raw_doc /\ NamesOk rich_raw_doc /\
+  DocInv rich_merged_doc /\ SpecShape rich_merged_doc /\ NamesOk rich_merged_doc.
+Proof. exact rich_invariants. Qed.
 
 (** where the hypotheses fail, on reachable states: without document element (C15-NOROOT) no
     table satisfies [DocInv]; with a text node without characters (DD3) the fresh parse does not
